@@ -13,6 +13,7 @@ Ties (all against /repo's current working tree):
 
 import itertools
 import json
+import time
 
 from .common import Ctx, compile_many, fork_map, import_cohdl
 from . import lean_io
@@ -373,28 +374,36 @@ def compile_batch(task):
     return {"res": res, "canary": c["vhdl"] if c["ok"] else None}
 
 
-def compile_designs(sources, ctx=None, per_batch=60):
-    """-> list of compile results, same order"""
+_REF_CANARY = []
+
+
+def compile_designs(sources, ctx=None, per_batch=150):
+    """-> list of compile results, same order.  Work is dealt to the batches by decreasing source size so that the few big
+    grouped designs do not all land in the same forked interpreter."""
+    import os
+
     if not sources:
         return []
-    ref = compile_many([(build_design(canary_items()), "E")])[0]
-    if not ref["ok"]:
-        raise AssertionError("canary design rejected: " + ref["err"])
-    batches = [sources[i:i + per_batch] for i in range(0, len(sources), per_batch)]
-    out = fork_map(compile_batch, batches, fresh=True, batch=1)
-    res = []
-    redo = []
-    for b, o in zip(batches, out):
-        if o[0] == "ok" and o[1]["canary"] == ref["vhdl"]:
-            res.extend(o[1]["res"])
+    if not _REF_CANARY:
+        ref = compile_many([(build_design(canary_items()), "E")])[0]
+        if not ref["ok"]:
+            raise AssertionError("canary design rejected: " + ref["err"])
+        _REF_CANARY.append(ref["vhdl"])
+    procs = int(os.environ.get("COHDL_VERIF_PROCS", "0") or 0) or min(16, os.cpu_count() or 4)
+    nb = max(1, min(len(sources), max(2 * procs, -(-len(sources) // per_batch))))
+    order = sorted(range(len(sources)), key=lambda i: -len(sources[i]))
+    idx_batches = [order[k::nb] for k in range(nb)]
+    out = fork_map(compile_batch, [[sources[i] for i in ib] for ib in idx_batches], fresh=True, batch=1)
+    res = [None] * len(sources)
+    for ib, o in zip(idx_batches, out):
+        if o[0] == "ok" and o[1]["canary"] == _REF_CANARY[0]:
+            for i, r in zip(ib, o[1]["res"]):
+                res[i] = r
         else:
-            redo.append((len(res), b))
-            res.extend([None] * len(b))
-    for start, b in redo:
-        if ctx is not None:
-            ctx.notes.append(f"a compile batch of {len(b)} designs was contaminated (canary changed); recompiled in fresh interpreters")
-        rr = compile_many([(s, "E") for s in b])
-        res[start:start + len(b)] = rr
+            if ctx is not None:
+                ctx.notes.append(f"a compile batch of {len(ib)} designs was contaminated (canary changed); recompiled in fresh interpreters")
+            for i, r in zip(ib, compile_many([(sources[i], "E") for i in ib])):
+                res[i] = r
     return res
 
 
@@ -573,8 +582,22 @@ def run(ctx: Ctx):
                 "the representability boundaries, True/False, Null, Full, bit strings of matching and mismatching length.  Every "
                 "case is compiled by the real compiler; every accepted case is simulated on ALL source values.  non-trivial = "
                 "the case crosses a type or width boundary (source type != target type); distinct = distinct (form, target, sources)")
+    t_stage = time.time()
+    stages = ctx.extra.setdefault("stage_seconds", {})
     singles = single_items(ctx)
     model = lean_single(singles)
+    if ctx.quick:
+        # quick tier: every expected-accepted case (cheap: grouped) and the complete rejected matrix for `<<=`, declarations
+        # and ports; a seeded sample of the expected-rejected cases of the other spellings / slices / views
+        # (they share `_assign` and `format_cast` with `<<=`); the thorough tier is complete
+        full_forms = {"next_op", "init", "port_in", "port_out"}
+        keep = []
+        for i, (it, m) in enumerate(zip(singles, model)):
+            if (m["ok"] and m["ok0"]) or it.form in full_forms or m["spec"] == "reject" and ctx.rng.random() < 0.35 \
+                    or m["spec"] != "reject" and ctx.rng.random() < 0.2:
+                keep.append(i)
+        singles = [singles[i] for i in keep]
+        model = [model[i] for i in keep]
     ctx.extra["single_cases"] = len(singles)
 
     # ---- (a) accept / reject ---------------------------------------------------------------------
@@ -582,7 +605,10 @@ def run(ctx: Ctx):
     alone = [i for i, m in enumerate(model) if not (m["ok"] and m["ok0"])]
     by_form = {}
     for i in grouped:
-        by_form.setdefault(singles[i].form, []).append(i)
+        # run-time Integer sources get designs of their own: their to_unsigned range errors (known finding) would
+        # otherwise poison the simulation step of every other item in the same design
+        s0 = singles[i].srcs[0]
+        by_form.setdefault((singles[i].form, s0 == ("rt", ("int",)), singles[i].target[0] if s0 == ("rt", ("int",)) else ""), []).append(i)
     groups = []
     for f, idx in by_form.items():
         groups += chunks(idx, 48)
@@ -654,6 +680,8 @@ def run(ctx: Ctx):
     ctx.extra["accepted_beyond_model_not_must_reject"] = [singles[i].sig() for i in other[:40]]
     ctx.extra["rejected_beyond_model"] = [singles[i].sig() for i in other_rej[:40]]
 
+    stages["singles_compile"] = round(time.time() - t_stage, 1)
+    t_stage = time.time()
     # ---- (b) values of accepted assignments ----------------------------------------------------
     seen, tasks, task_idx = set(), [], []
     for i in sorted(vhdl_of):
@@ -671,7 +699,8 @@ def run(ctx: Ctx):
         if s[0] != "ok":
             raise AssertionError("simulation task failed: " + s[1])
         for i, r in zip(g, s[1]):
-            if len(g) > 1 and ((isinstance(r, tuple) and r and r[0] == "err") or any(isinstance(x[-1], str) for x in r)):
+            homogeneous_int = all(singles[j].srcs[0] == ("rt", ("int",)) for j in g)
+            if len(g) > 1 and ((isinstance(r, tuple) and r and r[0] == "err") or (any(isinstance(x[-1], str) for x in r) and not homogeneous_int)):
                 resim.append(i)
             else:
                 rows[i] = r
@@ -763,8 +792,13 @@ def run(ctx: Ctx):
                     "expected": model[i]["ok"], "observed": observed[i], "cases": [singles[j].sig() for j in unexplained[:40]]},
                    no_failing_input=True)
 
+    stages["singles_values"] = round(time.time() - t_stage, 1)
+    t_stage = time.time()
     run_merges(ctx)
+    stages["merges"] = round(time.time() - t_stage, 1)
+    t_stage = time.time()
     run_python_level(ctx)
+    stages["python_level"] = round(time.time() - t_stage, 1)
     ctx.exhaustive = not ctx.quick
 
 
@@ -917,6 +951,7 @@ def merge_model(items):
 
 
 def run_merges(ctx):
+    t_m = time.time()
     items = merge_items(ctx)
     if ctx.quick:
         small_targets = {("bit",), ("bool",), ("bv", 2), ("uns", 2), ("sgn", 2), ("uns", 3), ("sgn", 3)}
@@ -924,9 +959,16 @@ def run_merges(ctx):
         # the structured literal-position stream below is complete in both tiers
         first = [it for it in items if it.form == "ifexp" and it.target in small_targets]
         rest = [it for it in items if it.form != "ifexp"]
-        items = ctx.rng.sample(first, min(len(first), 700)) + ctx.rng.sample(rest, min(len(rest), 300))
+        items = ctx.rng.sample(first, min(len(first), 500)) + ctx.rng.sample(rest, min(len(rest), 200))
     seen = {it.key() for it in items}
     for it in literal_position_items(ctx):
+        if ctx.quick and it.form == "ret":
+            # quick: the helper-function form is slow to compile (one process per item): every Null/Full position for the
+            # equal-width and the next wider target, a 25% sample of the rest; complete in thorough
+            nf = any(s[0] in ("null", "full") for s in it.srcs)
+            tw, aw = ty_width(it.target), max([ty_width(s[1]) for s in it.srcs if s[0] == "rt"] or [1])
+            if not (nf and tw <= aw + 1) and ctx.rng.random() < 0.75:
+                continue
         if it.key() not in seen:
             seen.add(it.key())
             items.append(it)
@@ -967,6 +1009,7 @@ def run_merges(ctx):
                 vh[i] = (r["vhdl"], [i])
             else:
                 vh.pop(i, None)
+    ctx.extra.setdefault("stage_seconds", {})["merges_compile"] = round(time.time() - t_m, 1)
     mism = [i for i in range(len(items)) if observed[i] != exp[i]]
     for i, it in enumerate(items):
         ctx.case(key=it.key(), nontrivial=True, kind=f"merge{len(it.srcs)}:{'accepted' if observed[i] else 'rejected'}",
@@ -1004,17 +1047,29 @@ def run_merges(ctx):
     direct = chain_expected(good, lambda it: None)
     # (2) the mirror's join type
     via_join = chain_expected(good, lambda it: join[index[id(it)]])
-    nvals, need_search, mirror_bad = 0, [], []
+    nvals, need_search = 0, []
     for it, r in good:
         i = index[id(it)]
         nvals += len(r)
         ok_direct = all(ex != "none" and fmt(y) == ex for (ci, x, y, ex) in direct[id(it)])
         ok_join = all(ex != "none" and fmt(y) == ex for (ci, x, y, ex) in via_join[id(it)])
-        flat = not (it.form == "ifexp" and len(it.srcs) == 3)
-        if flat and not ok_join:
-            mirror_bad.append(i)
         if not (ok_join if join[i] is not None else ok_direct):
             need_search.append(i)
+    # (3) the Lean value model `mergeValue` (printed casts through the temporary of the join type; theorem
+    #     C05.merge_preserves is about it) for the flat merges
+    mreq, mwhere = [], []
+    for it, r in good:
+        if it.form == "ifexp" and len(it.srcs) == 3:
+            continue
+        toks = " ".join(src_tok(s) for s in it.srcs)
+        for row in r:
+            ci, x, y = row_parts(row)
+            mreq.append(f"mergeval {ty_tok(it.target)} {ci} {x} {toks}")
+            mwhere.append((index[id(it)], fmt(y)))
+    mans = lean_io.query("C05", mreq)
+    if "bad-op" in mans:
+        raise AssertionError("model driver rejected a mergeval request")
+    mirror_bad = sorted({i for (i, got), a in zip(mwhere, mans) if a != got})
     # spec verdict of the steps through the mirror's join type, batched
     acc = [i for i in range(len(items)) if observed[i]]
     sreq, sidx = [], []
@@ -1032,6 +1087,8 @@ def run_merges(ctx):
         p += n
     need_search += [i for i in mism if observed[i]]
     viol, explained_other = {}, []
+    ctx.extra["merge_join_search_cases"] = len(set(need_search))
+    ctx.extra.setdefault("stage_seconds", {})["merges_values"] = round(time.time() - t_m, 1)
     for i in sorted(set(need_search)):
         it, r = items[i], rows.get(i)
         if r is None or isinstance(r, tuple):
@@ -1071,7 +1128,7 @@ def run_merges(ctx):
                    no_failing_input=True)
     ctx.extra["merge_cases"] = len(items)
     ctx.extra["merge_values"] = nvals
-    ctx.obligation("correspondence: value of every accepted merge, for every alternative taken and all its values = Lean convert through the join type of Lean tryJoin (Null/Full fill the target)",
+    ctx.obligation("correspondence: value of every accepted merge, for every alternative taken and all its values = Lean mergeValue (casts through the join type of Lean tryJoin; Null/Full fill the target)",
                    not mirror_bad and not ill and not viol, detail=f"{nvals} values of {len(good)} accepted merges, {len(mirror_bad)} not explained by the mirror's join type, "
                    f"{sum(len(v) for v in viol.values())} violate the property, {len(ill)} ill-typed")
 
